@@ -170,14 +170,17 @@ def check_case(ctx, case):
                          'selected distance: %r' % (bname, edges.tolist(), nl, [float(x) for x in m]))
             ctx.lean.ask(['c02', 'linspace', fr(float(sel.min())), fr(float(sel.max())), str(nl)], cb_lin)
     elif bname in ('kmeans', 'ward'):
-        centers = cluster_centers(bname, d[d <= (eff if not sparse else min(eff, dmax_stored))], nl)
+        # the contract is re-run on what the implementation hands to the back-end: its own distance vector cut at
+        # its own resolved maximum lag (a brute-force maximum may differ from the stored one in the last bit)
+        lim = dmax_stored if ml is None else min(float(ml), dmax_stored)
+        centers = cluster_centers(bname, d[d <= lim], nl)
         if centers is not None:
-            def cb_mid(f, edges=edges, centers=centers):
+            def cb_mid(f, edges=edges, centers=centers, lim=lim):
                 m = parse_nums(f[0])
                 if not all_close(m, edges.tolist(), rel=1e-9):
                     # the clustering back-end is not bit-reproducible on tie-heavy data (multi-threaded sums):
                     # only a mismatch that persists over repeated runs of both sides is reported
-                    dsel = d[d <= (eff if not sparse else min(eff, dmax_stored))]
+                    dsel = d[d <= lim]
                     again = [cluster_centers(bname, dsel, nl) for _ in range(3)]
                     with quiet():
                         impl_again = [np.asarray(vario.build(case).bins, float).tolist() for _ in range(2)]
